@@ -385,6 +385,8 @@ Clauses(S, P, hasPrev, TauSet) ==   \* S = this solve's observation, P = previou
       c11f == IF dualsFromTask /\ (Len(BarS(0)) # npair \/ \E k \in 1..npair : LET pr == ps[k] IN
                     Abs(S.resid[k] + (IF pr[1] = pr[2] THEN 1 ELSE 2) * BarS(0)[PackIdx(np, pr[1] - 1, pr[2] - 1)]) > 2)
               THEN {<<"C11", "residual-is-not-minus-barsj0", 0>>} ELSE {}
+      \* both accessors of the multipliers agree: the wrapper's get_dual_variables() and the objects' eval_dual()
+      c11y == IF solved /\ S.wdual > 2 THEN {<<"C11", "wrapper-multipliers-differ-from-the-multipliers-of-the-objects", S.wdual>>} ELSE {}
       c11g == IF wellFormed /\ solved /\ S.opts.mode = "primal" /\ (S.tau > Len(tkAll.xx) \/ Abs(S.retv - tkAll.xx[S.tau]) > 1)
               THEN {<<"C11", "returned-value-is-not-tau", 0>>} ELSE {}
       \* the heuristic objective: the k-th putbarcj puts <W_k, G> on matrix variable 0, W_k the k-th weight handed to
@@ -414,7 +416,7 @@ Clauses(S, P, hasPrev, TauSet) ==   \* S = this solve's observation, P = previou
      \cup c02a \cup c02b \cup c02c \cup c02d \cup c02e \cup c02f \cup c02g \cup c02h \cup c02i \cup c02j
      \cup c14a \cup c14b \cup c14c \cup c14d \cup c14e \cup c14f
      \cup c13a \cup c13b \cup c13c \cup c13d \cup c13e \cup c13f
-     \cup c11a \cup c11b \cup c11c \cup c11d \cup c11e \cup c11f \cup c11g \cup c11h \cup c11x
+     \cup c11a \cup c11b \cup c11c \cup c11d \cup c11e \cup c11f \cup c11g \cup c11h \cup c11x \cup c11y
 Tag(step, cl) == {<<step, c[1], c[2], c[3]>> : c \in cl}
 TInit == /\ tid \in 1..Len(Traces)
          /\ l = 1
